@@ -31,11 +31,24 @@ def match_known(known, pid, key):
     return None
 
 
-def run_harness_job(modname, hname, seed, tier):
+def run_harness_job(modname, hname, seed, tier, shard=None):
     from .harness import run_harness
     mod = importlib.import_module(modname)
     h = mod.get_harness(hname, tier)
-    return run_harness(h, seed=seed, tier=tier)
+    return run_harness(h, seed=seed, tier=tier, shard=shard)
+
+
+def harness_jobs(modname, hs, seed, tier):
+    """one job per harness, or `h.shards` jobs for heavy ones (claims split round-robin)"""
+    out = []
+    for h in hs:
+        n = getattr(h, "shards", 1)
+        if n <= 1:
+            out.append((h.name, run_harness_job, (modname, h.name, seed, tier)))
+        else:
+            for k in range(n):
+                out.append((f"{h.name}#{k}", run_harness_job, (modname, h.name, seed, tier, (k, n))))
+    return out
 
 
 def main(pid, argv=None):
@@ -74,7 +87,7 @@ def main(pid, argv=None):
     def progress(name, st, dt):
         if verbose:
             print(f"  [{st:7s}] {dt:7.1f}s {name}", flush=True)
-    job_timeout = getattr(mod, "JOB_TIMEOUT", {}).get(tier, 900)
+    job_timeout = int(os.environ.get("VERIF_JOB_TIMEOUT", 0)) or getattr(mod, "JOB_TIMEOUT", {}).get(tier, 900)
     results = run_jobs(jobs, job_timeout=job_timeout, progress=progress)
     # ---- aggregate -------------------------------------------------------------------
     known = load_known()
@@ -86,6 +99,8 @@ def main(pid, argv=None):
         if st == "ok":
             for r in res["records"]:
                 r.setdefault("harness", name)
+                if "#" in name and r["label"] in ("build", "reachability") and not name.endswith("#0"):
+                    continue  # reported once by shard 0
                 recs.append(r)
             stats.append(res["stats"])
         elif st == "timeout":
